@@ -271,9 +271,9 @@ class _Walker:
                 else:
                     out.add(FRESH)
             elif kind == "fresh":
-                src = root  # shadow source for copies: elements are shared with the source
-                if step == "[]" and src is not None:
-                    out |= self.extend(src, "[]")
+                src = root  # shadow source of a shallow copy: elements *and attribute values* are shared with the source
+                if src is not None and (step == "[]" or path == ("obj",)):
+                    out |= self.extend(src, step)
                 else:
                     out.add(FRESH)
             elif kind == "unknown":
@@ -408,7 +408,8 @@ class _Walker:
         elif isinstance(t, ast.Attribute):
             base = self.expr(t.value)
             fresh = self.all_fresh(v)
-            self.emit("rebind", self.extend(base, t.attr), "= <fresh>" if fresh else "= <shared>", st, fresh)
+            written = frozenset(o for o in base if o[0] not in ("fresh", "new"))   # the object whose attribute is rebound
+            self.emit("rebind", self.extend(written, t.attr), "= <fresh>" if fresh else "= <shared>", st, fresh)
             if base == frozenset({("self", None, ())}):
                 if fresh:
                     self.fresh_attrs.add(t.attr)
@@ -592,7 +593,7 @@ class _Walker:
                     if e.args:
                         self.note_iteration(e.args[0], name, consumer=e)
                     src = frozenset(o for a in argv[:1] for o in a if o[0] not in ("fresh", "new"))
-                    return frozenset({("fresh", src or None, ())})
+                    return frozenset({("fresh", src or None, ("obj",) if name == "copy" else ())})
             if name == "cast" and len(argv) == 2:
                 return argv[1]
             if name in ("getattr",) and argv:
@@ -641,7 +642,7 @@ class _Walker:
                         self.note_extern(f"{r[1]}.{m}", e)
                         if r[1] == "copy" and m in ("copy", "deepcopy"):
                             src = frozenset(o for a in argv[:1] for o in a if o[0] not in ("fresh", "new"))
-                            return frozenset({("fresh", src or None, ())}) if m == "copy" else frozenset({FRESH})
+                            return frozenset({("fresh", src or None, ("obj",))}) if m == "copy" else frozenset({FRESH})
                     return frozenset({FRESH})
             recv = self.expr(fn.value)
             if m == "join" and e.args:
